@@ -13,7 +13,7 @@
 //     letters: m mandatory, h hidden, d deprecated, p setPrintDefault(true), n setPrintDefault(false)
 //     chk / con: toString() texts of checks / constraints (own ICheck / IArgConstraint classes)
 // result:  ok D=<digest of out> E=<digest of err> ## out=<hex> err=<hex>
-//          err:<exception class> ## out=<hex> err=<hex>      setup:<exception class> ##
+//          err:<exception class> ##      setup:<exception class> ##
 #include <memory>
 #include <optional>
 #include <sstream>
@@ -213,7 +213,9 @@ std::string run_case(const std::vector<std::string>& w)
       outcome = "err:non-std";
    }
    std::string res = outcome;
-   if (outcome == "ok") res += " D=" + digest(out.str()) + " E=" + digest(err.str());
+   // after an exception only the outcome is reported: what was written before it is not modelled
+   if (outcome != "ok") return res + " ##";
+   res += " D=" + digest(out.str()) + " E=" + digest(err.str());
    res += " ## out=" + vf::hex(out.str()) + " err=" + vf::hex(err.str());
    return res;
 }
